@@ -1,3 +1,4 @@
+import Btdht.Proofs.GuardTie.Tid
 import Btdht.Proofs.Tid
 import Btdht.Proofs.Attribution
 import Btdht.Model.Dht
